@@ -426,6 +426,10 @@ mut('m73-atomicrc-pointer-fmt-raw', ['C11'], S, """        Pointer::fmt(&self.li
 mut('m74-try-advance-reentrant', ['C07'], I, """        let Some(_scope) = AdvanceScope::enter(guard) else {
             return global_epoch;
         };""", """        let _scope = AdvanceScope::enter(guard);""", 're-introduces finding #11: try_advance nests through the destructions it defers')
+mut('m75-unpin-stale-guard-count', ['C16'], I, """        // A deferred function that ran above may have taken a guard that is still alive: count
+        // from the current value, not from the one read before the collection.
+        let guard_count = self.guard_count.get();
+        self.guard_count.set(guard_count - 1);""", """        self.guard_count.set(guard_count - 1);""", 're-introduces finding #12: unpin writes back the guard count it read before its collection loop')
 # ---- C19
 mut('m60-eq-ptr-eq', ['C19'], S, '''impl<T: RcObject + PartialEq> PartialEq for Rc<T> {
     #[inline(always)]
